@@ -8,6 +8,7 @@ package rollout
 // because the old sequence had it later (or earlier) than the new one.
 
 import (
+	"github.com/openkruise/rollouts/api/v1alpha1"
 	"github.com/openkruise/rollouts/api/v1beta1"
 	"github.com/openkruise/rollouts/pkg/trafficrouting"
 	"github.com/openkruise/rollouts/pkg/util"
@@ -125,4 +126,46 @@ func VerifC05_CanaryDisableDuringAnotherCleanup() {
 }
 func VerifC05_BlueGreenDisableDuringAnotherCleanup() {
 	c05ExitDuringCleanup(true, true, "C05.bluegreen.reasonChange.disable")
+}
+
+// VerifC05_AbortedResetLeavesNoCursorBehind: a continuous release (a third revision pushed mid-rollout) starts the
+// reset sequence, which keeps its position in the same persisted finalising cursor; when that revision is withdrawn
+// again before the reset finished, the rollout simply goes on rolling.  When it later completes, its clean-up must
+// still run every restoring task — it must not resume from the position the aborted reset left in the cursor.
+func VerifC05_AbortedResetLeavesNoCursorBehind() {
+	vSimple = true
+	r := vCanaryRollout(1, 1)
+	r.Status.CanaryStatus.CurrentStepState = v1beta1.CanaryStepStateCompleted
+	// the position an aborted reset (gateway -> BatchRelease -> canary Service) may have left, or none
+	stale := []v1beta1.FinalisingStepType{"", v1beta1.FinalisingStepRouteTrafficToStable, v1beta1.FinalisingStepReleaseWorkloadControl, v1beta1.FinalisingStepRemoveCanaryService}
+	r.Status.CanaryStatus.FinalisingStep = stale[verifrt.IntRange("reset.cursorLeft", 0, len(stale)-1)]
+	c := vContext(r)
+	cli := &symclient.Client{Objects: []client.Object{r}}
+	calls := &vCalls{}
+	c05StubAllTasksSucceed(calls)
+	rec := c10Reconciler(cli)
+	// normal rolling: the last step is completed, the rollout turns to finalising
+	err := rec.doProgressingInRolling(c)
+	cond := util.GetRolloutCondition(*c.NewStatus, v1beta1.RolloutConditionProgressing)
+	verifrt.Assert(err == nil && cond != nil && cond.Reason == v1alpha1.ProgressingReasonFinalising, "C05.abortedReset.completedEntersFinalising")
+	if err != nil || cond == nil || cond.Reason != v1alpha1.ProgressingReasonFinalising {
+		return
+	}
+	c.FinalizeReason = v1beta1.FinaliseReasonSuccess
+	done := false
+	for i := 0; i < 14 && !done; i++ {
+		var e error
+		done, e = rec.canaryManager.doCanaryFinalising(c)
+		if e != nil {
+			return
+		}
+	}
+	verifrt.Assert(done, "C05.abortedReset.cleanupTerminates")
+	if !done {
+		return
+	}
+	for _, task := range []string{stubRestoreGateway, stubRestoreStableService, stubRemoveCanaryService, stubFinalizingBatchRelease, stubRemoveBatchRelease} {
+		verifrt.Assert(calls.count(task) > 0, "C05.abortedReset.everyRestoringTaskStillRuns")
+	}
+	verifrt.Cover("C05.abortedReset.done")
 }
